@@ -477,6 +477,11 @@ theorem transmit_resends_after_reconnect {R : Type} (attempt : Nat → Option R)
 
 example : transmit (fun i => if i = 0 then none else some 7) true = .answered 7 := by decide
 
+/-- Numbers are written (`set<T>`, used by `age()/expiration()/on_server()`) and read (`get<T>`) in the classic locale on
+both sides (regenerated from the header): the `showInt`/`readInt` pair of the model does not depend on the process's
+global locale.  The correspondence runs a share of the histories under a digit-grouping global locale. -/
+theorem number_text_is_locale_independent : Gen.setImbuesClassic = true ∧ Gen.getImbuesClassic = true := by decide
+
 /-- **The 10 % renewal window** as the source has it (`delta < timeout_val_ * 0.1` with
 `delta = now + timeout_val_ - timeout_in_`): an unchanged renew/browser session is not rewritten while fewer
 than a tenth of its period has passed since `timeout_in_ - timeout_val_`, the instant of the last write. -/
